@@ -84,7 +84,10 @@ def repr_of(it, x):
     if isinstance(x, SInt):
         return str_of(it, x)
     if isinstance(x, SStr):
-        note("repr(str)", "repr() of a string is an injective uninterpreted function")
+        note("repr(str)", "repr(s) == \"'\" + s + \"'\" for strings of printable ASCII without quote and backslash; an uninterpreted function otherwise")
+        plain = z3.Star(z3.Union(z3.Range(" ", "!"), z3.Range("#", "&"), z3.Range("(", "["), z3.Range("]", "~")))
+        if it.branch(z3.InRe(x.t, plain)):
+            return SStr(z3.Concat(z3.StringVal("'"), x.t, z3.StringVal("'")))
         it.approx.append("repr(str)")
         return SStr(z3.Function("str_repr", z3.StringSort(), z3.StringSort())(x.t))
     if isinstance(x, Opaque):
@@ -95,6 +98,40 @@ def repr_of(it, x):
         return repr(x)
     except Exception as e:
         raise PyRaise(e)
+
+
+def eq_const(it, sv, const):
+    """z3 Bool for `sv == const` (sv symbolic str, const a Python str), kept in the pure regex-membership fragment.
+    A slice that drops k characters at one end is compared through its base string:  t[:-k] == c  <=>  t in c.Sigma^k   (c non-empty)."""
+    origin = getattr(sv, "origin", None)
+    if origin is not None and const != "":
+        kind, base_s, k = origin
+        pad = z3.Loop(z3.AllChar(S), k, k) if k else z3.Re("")
+        rx = z3.Concat(z3.Re(z3.StringVal(const)), pad) if kind == "drop_suffix" else z3.Concat(pad, z3.Re(z3.StringVal(const)))
+        return in_base(it, base_s, rx)
+    return z3.InRe(sv.t, z3.Re(z3.StringVal(const)))
+
+
+def in_base(it, base_s, rx):
+    origin = getattr(base_s, "origin", None)
+    if origin is None:
+        return z3.InRe(base_s.t, rx)
+    kind, b2, k = origin
+    pad = z3.Loop(z3.AllChar(S), k, k) if k else z3.Re("")
+    # (only exact for strings at least k long; shorter ones give the empty slice, which the non-empty constant excludes)
+    return in_base(it, b2, z3.Concat(rx, pad) if kind == "drop_suffix" else z3.Concat(pad, rx))
+
+
+def split_str(it, sv):
+    """Finite-domain case split of a symbolic string; a slice is split through its base string."""
+    origin = getattr(sv, "origin", None)
+    if origin is not None:
+        kind, base_s, k = origin
+        b = split_str(it, base_s)
+        if b is None:
+            return None
+        return (b[:-k] if k else b) if kind == "drop_suffix" else b[k:]
+    return it.split_values(sv.t)
 
 
 def in_re(it, s, regex):
@@ -131,7 +168,7 @@ def attr_model(it, o, name):
         if name == "replace":
             def f(old, new, *a):
                 if isinstance(old, str) and isinstance(new, str) and not a:
-                    return SStr(z3.Replace(t, z3.StringVal(old), z3.StringVal(new))) if False else _replace_all(t, old, new)
+                    return _replace_all(t, old, new, it)
                 raise Unsupported("replace with symbolic arguments")
             return f
         if name == "format":
@@ -141,7 +178,13 @@ def attr_model(it, o, name):
                 if isinstance(k, slice) and k.step is None:
                     lo = 0 if k.start is None else k.start
                     if isinstance(lo, int) and lo >= 0 and k.stop is None:
-                        return SStr(z3.SubString(t, lo, z3.Length(t) - lo))
+                        r = SStr(z3.SubString(t, lo, z3.Length(t) - lo))
+                        r.origin = ("drop_prefix", o, lo)
+                        return r
+                    if isinstance(lo, int) and lo == 0 and isinstance(k.stop, int) and k.stop < 0:
+                        r = SStr(z3.SubString(t, 0, z3.Length(t) + k.stop))
+                        r.origin = ("drop_suffix", o, -k.stop)
+                        return r
                     if isinstance(lo, int) and lo >= 0 and isinstance(k.stop, int) and k.stop < 0:
                         return SStr(z3.SubString(t, lo, z3.Length(t) + k.stop - lo))
                     if isinstance(lo, int) and lo >= 0 and isinstance(k.stop, int) and k.stop >= lo:
@@ -180,7 +223,7 @@ def attr_model(it, o, name):
             return f
         if name in ("rpartition", "partition", "split", "rsplit", "removesuffix", "removeprefix", "isidentifier", "isdecimal", "isdigit", "isalnum", "isalpha", "isascii", "splitlines", "find", "rfind", "index", "count", "title", "zfill", "ljust", "rjust"):
             def f(*a, **k):
-                v = it.split_values(t)
+                v = split_str(it, o)
                 if v is None:
                     raise Unsupported(f"str.{name} on a symbolic string with infinitely many values")
                 try:
@@ -204,9 +247,41 @@ def enc_bytes(t):
     return bytes_of(t)
 
 
-def _replace_all(t, old, new):
-    note("str.replace", "replace of a constant by a constant is z3's replace_all")
-    return SStr(z3.ReplaceAll(t, z3.StringVal(old), z3.StringVal(new))) if hasattr(z3, "ReplaceAll") else SStr(z3.Replace(t, z3.StringVal(old), z3.StringVal(new)))
+def _replace_all(t, old, new, it=None):
+    """str.replace(old, new) for constant old/new.  For a one-character `old` the replacement distributes over concatenation;
+    constants are rewritten directly and a symbolic part that provably does not contain the character is left unchanged."""
+    note("str.replace", "replace of a constant by a constant is replace_all; for a one-character pattern it distributes over concatenation")
+    if len(old) == 1:
+        def may_contain(x, ch):
+            if z3.is_string_value(x):
+                return ch in x.as_string()
+            if z3.is_app(x) and x.decl().kind() == z3.Z3_OP_SEQ_CONCAT:
+                return any(may_contain(c, ch) for c in x.children())
+            if z3.is_app(x) and x.decl().kind() == z3.Z3_OP_SEQ_REPLACE_ALL and z3.is_string_value(x.arg(1)) and z3.is_string_value(x.arg(2)) and len(x.arg(1).as_string()) == 1:
+                a, b = x.arg(1).as_string(), x.arg(2).as_string()
+                return (ch in b and may_contain(x.arg(0), a)) or (ch != a and may_contain(x.arg(0), ch))
+            if it is not None:
+                from .. import solver
+
+                return solver.check(list(it.pc) + [z3.Contains(x, z3.StringVal(ch))], timeout_ms=3000)[0] != "unsat"
+            return True
+
+        def go(x):
+            if z3.is_string_value(x):
+                return z3.StringVal(x.as_string().replace(old, new))
+            if z3.is_app(x) and x.decl().kind() == z3.Z3_OP_SEQ_CONCAT:
+                return z3.Concat(*[go(c) for c in x.children()])
+            if not may_contain(x, old):
+                return x
+            return mk_replace_all(x, old, new)
+
+        return SStr(go(t))
+    return SStr(mk_replace_all(t, old, new))
+
+
+def mk_replace_all(x, old, new):
+    a, b = z3.StringVal(old), z3.StringVal(new)
+    return z3.SeqRef(z3.Z3_mk_seq_replace_all(x.ctx_ref(), x.as_ast(), a.as_ast(), b.as_ast()), x.ctx)
 
 
 class EngFormatter(_string.Formatter):
